@@ -387,8 +387,11 @@ def run(ctx) -> dict:
                             'fn:subsequence uses the builtin half-to-even round()'))
     positional_args_rounded(fs[0], r2, 'R08.2', 'subsequence', 'round_number')
     counts['subsequence_impl'] = len(fs)
+    from .c05_purity import r05_3
+    r6 = r05_3(ctx, counts)
+    r6.title = 'OPERAND-IMMUTABLE (R08.6 = R05.3: sequence functions build new sequences)'
     return {
-        'results': [r1, r2, r08_3(ctx, counts), r08_4(ctx, counts), r08_5(ctx, counts)],
+        'results': [r1, r2, r08_3(ctx, counts), r08_4(ctx, counts), r08_5(ctx, counts), r6],
         'counts': counts,
         'explanation':
             'Two thin structural clauses of C08 are decided: the focus numbering that '
